@@ -35,6 +35,9 @@ type c16Seq struct {
 	Order     []int    `json:"order"`     // the order in which they are ended
 	InFlight  bool     `json:"request_in_flight"`
 	Final     string   `json:"final"` // "" | server-shutdown
+	// ShutdownAfter > 0: the server is shut down after that many endings, with
+	// the remaining upstreams still connected (their planned endings never happen)
+	ShutdownAfter int `json:"shutdown_after,omitempty"`
 }
 
 // rawUpstream is a harness-held upstream connection: websocket + yamux client
@@ -218,7 +221,10 @@ func runC16(s c16Seq) (sig, msg string) {
 		}
 	}
 	open := len(ups)
-	for _, i := range s.Order {
+	for step, i := range s.Order {
+		if s.ShutdownAfter > 0 && step >= s.ShutdownAfter-1 && s.Final == "server-shutdown" && step == s.ShutdownAfter-1 {
+			break // the rest is ended by the server shutting down
+		}
 		u := ups[i]
 		var inflight chan e4.Result
 		if s.InFlight {
@@ -407,6 +413,12 @@ func c16Sequences(full bool) []c16Seq {
 							final = "server-shutdown"
 						}
 						out = append(out, c16Seq{Endpoints: eps, Endings: append([]string(nil), cur...), Order: ord, InFlight: inflight, Final: final})
+						if final == "server-shutdown" && !inflight {
+							// the same sequence cut short: shut down while 1..k upstreams are still connected
+							for after := 1; after <= k; after++ {
+								out = append(out, c16Seq{Endpoints: eps, Endings: append([]string(nil), cur...), Order: ord, Final: final, ShutdownAfter: after})
+							}
+						}
 					}
 				}
 				return
